@@ -89,6 +89,9 @@ type Guard struct {
 	Mutex  string   `json:"mutex"`
 	Fields []string `json:"fields"`
 	Except []string `json:"except"`
+	ExceptFuncs []string `json:"except_funcs"`
+	// Shallow: the object a field points to is immutable once published (replaced wholesale): only the field itself is guarded
+	Shallow []string `json:"shallow"`
 }
 
 type Spec struct {
